@@ -213,6 +213,11 @@ def runOpTransform (op : String) (args : List String) : String :=
         okIf (Spec.sameWords a b) "words-changed",
         okIf (Spec.skeleton c == Spec.skeleton a) "uncollapse-differs"]
     | _, _, _ => bad
+  | "P.C04.words", [a, b, collapsed] =>
+    -- the words (and, unless a chain was collapsed into the tags, the tags) of the sentence are unchanged, in order
+    match decTree a, decTree b with
+    | some a, some b => firstFail [okIf (if collapsed == "t" then Spec.sameWords a b else Spec.sameSentence a b) "sentence-changed"]
+    | _, _ => bad
   | "P.post", [call, b] =>
     -- what must hold of the RESULT of `call` whatever came before it in a sequence: only post-conditions that are
     -- theorems for every well-formed input (verylow_post, root_post, collapse_no_unary, binarize_arity)
